@@ -213,7 +213,9 @@ def reuse_history(rep, states, tier, rng):
     for st in states:
         groups.setdefault((st['dim'], json.dumps([list(x) for x in st['data']]), json.dumps(list(st['labels']))), []).append(st)
     for (D, _, _), grp in groups.items():
-        for lam, numeric in ([(0.0, False), (0.01, False)] if tier == 'quick' else [(0.0, False), (0.01, False), (0.0, True)]):
+        for lam, numeric in [(0.0, False), (0.01, False), (0.0, True)]:
+            if numeric and tier == 'quick' and D > 1:
+                continue      # numerical integration of the hat products (nquad) is slow in 2-d
             seq = list(grp)
             rng.shuffle(seq)
             seq = seq[:12 if tier == 'quick' else 40]
@@ -250,7 +252,7 @@ def reuse_history(rep, states, tier, rng):
                                   what='reuse history step %d on grid %s raised %r' % (k, grids, ex))
                     break
                 rep.count(1, key=('reuse', D, lam, numeric, json.dumps([point_order(s)[1] for s in seq[:k + 1]])))
-                tol = 1e-12 if not numeric else 1e-4
+                tol = 1e-12 if not numeric else 1e-9
                 n = len(order)
                 if R.shape != (n, n) or not np.allclose(R, G + lam * np.eye(n), rtol=tol, atol=tol * 1e-2):
                     rep.violation('C16_MatrixIsGramPlusLambda', {'dim': D, 'reuse': True, 'numeric': numeric},
